@@ -9,7 +9,7 @@ from . import common
 from .common import Check
 from .c11_ref import REF, denotation
 from .c17_impl import B1_EVENTS, HOUR, MINUTE, HarnessBroken, Impl, Unsupported, QNAME, T_END, T_START, show_outcome
-from .c17_session import Session, canon, minimise
+from .c17_session import Session, canon, minimise, show_canon
 
 RULE = ("every token kind in every argument position (all 216 kind triples of a 3-argument call, each kind "
         "nested in call / list / dict-value position), the defect-13 witnesses, what the model's wf admits beyond "
@@ -717,7 +717,8 @@ def main(argv=None):
             ck.count("reference-silent:" + (want[0] if want[0] == "ambiguous" else "outside the documented behaviour"))
             op[3] = {}
         elif got != want:
-            show = lambda o: repr(o[1])[:600]
+            show = lambda o: (show_canon(o[1]) if o[0] == "value" else str(o[1]))[:600]
+            verb = lambda o, v="evaluates to": v if o[0] == "value" else ("raises" if o[0] == "error" else "ends in")
             replay = {"query": text, "implementation": show(got), "reference": show(want), "ast": repr(prog)[:4000], "datastore": dsname,
                       "call": "aw_query.query2.query('q-name', query, 2020-01-01Z, 2020-01-02Z, datastore); values in the "
                               "canonical form of harness/c17_session.canon (events as [offset from 2020-01-01Z, duration, data] in us)"}
@@ -732,7 +733,7 @@ def main(argv=None):
                                    "(exit 1 = the last query misses its expectation)")
             where = "" if history is None else f" (query {len(history) + 1} of a session, datastore {dsname})"
             ck.failing_input("C11:value-differs-from-text",
-                             f"{short!r} evaluates to {show(got)[:300]}, its text denotes {show(want)[:300]}{where}", replay)
+                             f"{short!r}: the implementation {verb(got)} {show(got)[:300]}, its text {verb(want, 'denotes')} {show(want)[:300]}{where}", replay)
         if len(ck.samples) < 6 and stream == "random" and kind == "value" and len(text) > 40:
             ck.sample({"query": text, "value": repr(payload)[:200]})
         if max(widest(e) for _, e in prog) > 2000:
@@ -767,8 +768,9 @@ def main(argv=None):
                     ck.count("blank:%r" % b)
             outs.append(ask(stream, prog, text)[0])
         if len(outs) == 2 and outs[0] != outs[1]:
-            ck.failing_input("C11:layout-changes-result", f"two layouts of one program give {outs[0][1]!r:.300} and {outs[1][1]!r:.300}",
-                             {"ast": repr(prog)[:4000], "results": [repr(o[1])[:600] for o in outs]})
+            sh = lambda o: (show_canon(o[1]) if o[0] == "value" else "raises " + str(o[1]))[:600]
+            ck.failing_input("C11:layout-changes-result", f"two layouts of one program give {sh(outs[0])[:300]} and {sh(outs[1])[:300]}",
+                             {"ast": repr(prog)[:4000], "results": [sh(o) for o in outs]})
 
     # sessions: several queries one after the other in this process; each against the reference on it alone
     sessions = [("session", q) for q in corpus_sessions()] + [("session-random", g_session(ck.rng)) for _ in range(150 if quick else 10000)]
